@@ -25,6 +25,7 @@ import Poulpy.Lemmas.CoreEncLwe
 import Poulpy.Lemmas.NormDispatch
 import Poulpy.Lemmas.CoreEncHead
 import Poulpy.Lemmas.CoreEncPk4
+import Poulpy.Lemmas.KeyBridge
 
 namespace C01
 open NormL CoreEnc
@@ -789,5 +790,312 @@ example : ProdBounded 8 [[[1, -2], [3, 0]]] [[1, -1]] :=
   prod_bounded_of_norms (B := 3) _ _
     (by intro a ha l hl x hx; simp at ha; subst ha; simp at hl; rcases hl with rfl | rfl <;> simp at hx <;> rcases hx with rfl | rfl <;> norm_num)
     (by intro s hs; simp at hs; subst hs; decide)
+
+/-! ## Key generation is encryption: the generated keys satisfy the key hypotheses of the consumers
+
+`KeyWellFormed n b dsize size kxe dnum colsIn mat sOut msg err` (`Lemmas/KeyEntry.lean`): `mat` has the dimensions the routine was called
+with (`rows = dnum`, `colsIn`, `colsOut = |sOut| + 1`, `size`), every row `r < dnum` has its gadget position inside the ciphertext
+(`(r+1)·dsize ≤ size` — message limb `ptLimb = (dsize−1) + r·dsize`) and entries of `n` coefficients, and there is `KL` (polynomials of `n`
+coefficients) with `KeyOk`: for every input column `i` and row `r`
+
+  `Gadget.val (2^b) size (Ks.keyPhase n sOut mat i r) = msg i · (2^b)^(size − (r+1)·dsize) + ι (2^(b·(size−1−errLimb))·err i r) + (2^b)^size · ι (KL i r)`
+
+i.e. exactly `hkey` of `C03.glwe_keyswitch_decrypts` / `glwe_automorphism_decrypts` / `KsSide` (`EL` explicit), and with
+`E i r := ι(…) + β^S ι(KL i r)` `hkey` of `C04.ep_decrypts`, `C05.relin_decrypts` / `glwe_mul_decrypts`, `C03.ggsw_cells_value`
+(`key_hypothesis_ks`, `key_hypothesis_ep`, `ks_side_of_generated_key`).  `KeyCtx bits b n size kxe rank H E`: back end, `1 ≤ b ≤ 61`,
+noise precision with an existing target limb, `0 < n`, head-room `H` of the normalisations, sampler contract `|e| ≤ E` with
+`rank·2^(b−1) + E + 2^(b−1) ≤ 2^62`.  `ErrOk n E es cnt`: the first `cnt` error polynomials have `n` coefficients bounded by `E`.
+`tmp0` is the content of the routine's scratch temporary on entry (any well-shaped column). -/
+
+open Ks in
+/-- **`gglwe_encrypt_sk`** (every shape): well formed with `s_in_i = pts_i`, error of cell `(r, i)` = the `(i·dnum + r)`-th draw of `source_xe` -/
+theorem gglwe_encrypt_sk_wellformed {bits b n size kxe rankOut rankIn dnum dsize : Nat} {H E : Int}
+    (c : KeyCtx bits b n size kxe rankOut H E) (hd : 1 ≤ dsize) (tmp0 : Col) (htl : tmp0.length = size) (htw : WF n tmp0)
+    (sk : List Poly) (hsk : ∀ s ∈ sk, norm1 s * 2 ^ (b - 1) ≤ H)
+    (pts : List Poly) (hpts : ∀ i, i < rankIn → ScalarOk n (pts.getD i []))
+    (xa : List Nat) (es : List Poly) (hes : ErrOk n E es (rankIn * dnum))
+    (cells : List (Nat × List Col)) (xa' : List Nat) (es' : List Poly)
+    (h : Core.gglweEncryptSkT tmp0 bits b n size kxe rankOut rankIn dnum dsize pts sk xa es = some (cells, xa', es')) :
+    es' = es.drop (rankIn * dnum) ∧
+    KeyWellFormed n b dsize size kxe dnum rankIn (Core.keyMat n dnum rankIn (rankOut + 1) size cells) sk
+      (fun i => ι n (pts.getD i [])) (fun i r => es.getD (i * dnum + r) []) :=
+  gglweEncryptSk_wellformed c hd tmp0 htl htw sk hsk pts hpts xa es hes cells xa' es' h
+
+/-- non-vacuity: rank 1→1, two rows, radix 2^3, N = 2, FFT64 accumulator: the routine returns, the context and all hypotheses hold -/
+example : ∃ cells xa' es', Core.gglweEncryptSkT [[0, 0], [0, 0]] 64 3 2 2 5 1 1 2 1 [[1, 0]] [[1, -1]] [1, 2, 3, 4, 5, 6, 7, 8] [[0, 1], [1, 0]]
+      = some (cells, xa', es') ∧ es' = [] ∧
+    ∃ KL : Nat → Nat → Poly, KeyOk 2 3 1 (Core.keyMat 2 2 1 2 2 cells) [[1, -1]] (fun i => Ks.ι 2 (([[1, 0]] : List Poly).getD i []))
+      (fun i r => Hal.polyScale (2 ^ (3 * (2 - 1 - errLimb 5 3))) (([[0, 1], [1, 0]] : List Poly).getD (i * 2 + r) [])) KL := by
+  have hc : KeyCtx 64 3 2 2 5 1 (2 ^ 62) 1 :=
+    ⟨Or.inl rfl, headRoom64 (by norm_num) (by norm_num), by norm_num, by norm_num, by norm_num, by decide, by norm_num, by norm_num, by norm_num⟩
+  have hs : (Core.gglweEncryptSkT [[0, 0], [0, 0]] 64 3 2 2 5 1 1 2 1 [[1, 0]] [[1, -1]] [1, 2, 3, 4, 5, 6, 7, 8] [[0, 1], [1, 0]]).isSome := by
+    decide
+  obtain ⟨⟨cells, xa', es'⟩, hrun⟩ := Option.isSome_iff_exists.mp hs
+  obtain ⟨h1, _, _, _, _, _, _, KL, _, h3⟩ := gglwe_encrypt_sk_wellformed hc (le_refl 1) [[0, 0], [0, 0]] rfl
+    (by intro l hl; simp at hl; subst hl; rfl) [[1, -1]] (by intro s hs; simp at hs; subst hs; norm_num [norm1])
+    [[1, 0]] (by intro i hi; have : i = 0 := by omega
+                 subst this; exact ⟨rfl, by intro x hx; simp at hx; rcases hx with rfl | rfl <;> norm_num⟩)
+    [1, 2, 3, 4, 5, 6, 7, 8] [[0, 1], [1, 0]]
+    (by intro k hk
+        have : k = 0 ∨ k = 1 := by omega
+        rcases this with rfl | rfl <;> exact ⟨rfl, by intro x hx; simp at hx; rcases hx with rfl | rfl <;> norm_num⟩)
+    _ _ _ hrun
+  exact ⟨cells, xa', es', hrun, by rw [h1]; rfl, KL, h3⟩
+
+open Ks in
+/-- **`ggsw_encrypt_sk`** (every shape): cell `(r, 0)` has phase `pt·gadget_r + e`, cell `(r, c+1)` has phase `pt·s_c·gadget_r + e` -/
+theorem ggsw_encrypt_sk_wellformed {bits b n size kxe rank dnum dsize : Nat} {H E : Int}
+    (c : KeyCtx bits b n size kxe rank H E) (hd : 1 ≤ dsize) (tmp0 : Col) (htl : tmp0.length = size) (htw : WF n tmp0)
+    (sk : List Poly) (hsk : ∀ s ∈ sk, norm1 s * 2 ^ (b - 1) ≤ H) (pt : Poly) (hpt : ScalarOk n pt)
+    (xa : List Nat) (es : List Poly) (hes : ErrOk n E es (dnum * (rank + 1)))
+    (cells : List (Nat × List Col)) (xa' : List Nat) (es' : List Poly)
+    (h : Core.ggswEncryptSkT tmp0 bits b n size kxe rank dnum dsize pt sk xa es = some (cells, xa', es')) :
+    es' = es.drop (dnum * (rank + 1)) ∧
+    KeyWellFormed n b dsize size kxe dnum (rank + 1) (Core.keyMat n dnum (rank + 1) (rank + 1) size cells) sk
+      (fun i => (if i = 0 then 1 else ι n (sk.getD (i - 1) [])) * ι n pt) (fun i r => es.getD (r * (rank + 1) + i) []) :=
+  ggswEncryptSk_wellformed c hd tmp0 htl htw sk hsk pt hpt xa es hes cells xa' es' h
+
+example : (Core.ggswEncryptSkT [[0, 0], [0, 0]] 64 3 2 2 5 1 1 1 [1, 0] [[1, -1]] [1, 2, 3, 4, 5, 6, 7, 8] [[0, 1], [1, 0]]).map (·.1)
+    = some [(0, [[[-2, -1], [1, 0]], [[-3, -2], [-1, 0]]]), (1, [[[-2, -1], [2, -1]], [[1, 2], [3, -4]]])] := by decide
+
+open Ks in
+/-- **compressed forms**: the decompressed cells of `gglwe_compressed_encrypt_sk` / `ggsw_compressed_encrypt_sk` (and of every compressed key
+wrapper, which calls them on the same scalars and secret — switching, automorphism, tensor keys; each GGSW of the compressed blind-rotation
+key, C19 `brk_subkeys_eq`; each sub-key of the compressed GGLWE→GGSW key, `g2g_subkeys_eq`) satisfy the same statement -/
+theorem compressed_keys_wellformed {bits b n size kxe rankOut rankIn rank dnum dsize : Nat} {H E : Int} (hd : 1 ≤ dsize)
+    (tmp0 : Col) (htl : tmp0.length = size) (htw : WF n tmp0) (expand : List Nat → List Nat) (seedXa : List Nat) (es : List Poly) :
+    (∀ (_c : KeyCtx bits b n size kxe rankOut H E) (sk : List Poly) (_ : sk.length = rankOut) (_ : ∀ s ∈ sk, norm1 s * 2 ^ (b - 1) ≤ H)
+      (pts : List Poly) (_ : ∀ i, i < rankIn → ScalarOk n (pts.getD i [])) (_ : ErrOk n E es (rankIn * dnum))
+      (cc : List (Nat × Core.CellC)) (cells : List (Nat × List Col)),
+      Core.gglweEncryptCompressedT tmp0 bits b n size kxe rankOut rankIn dnum dsize pts sk expand seedXa es = some cc →
+      Core.decompressCells b n rankOut expand cc = some cells →
+      KeyWellFormed n b dsize size kxe dnum rankIn (Core.keyMat n dnum rankIn (rankOut + 1) size cells) sk
+        (fun i => ι n (pts.getD i [])) (fun i r => es.getD (i * dnum + r) [])) ∧
+    (∀ (_c : KeyCtx bits b n size kxe rank H E) (sk : List Poly) (_ : sk.length = rank) (_ : ∀ s ∈ sk, norm1 s * 2 ^ (b - 1) ≤ H)
+      (pt : Poly) (_ : ScalarOk n pt) (_ : ErrOk n E es (dnum * (rank + 1)))
+      (cc : List (Nat × Core.CellC)) (cells : List (Nat × List Col)),
+      Core.ggswEncryptCompressedT tmp0 bits b n size kxe rank dnum dsize pt sk expand seedXa es = some cc →
+      Core.decompressCells b n rank expand cc = some cells →
+      KeyWellFormed n b dsize size kxe dnum (rank + 1) (Core.keyMat n dnum (rank + 1) (rank + 1) size cells) sk
+        (fun i => (if i = 0 then 1 else ι n (sk.getD (i - 1) [])) * ι n pt) (fun i r => es.getD (r * (rank + 1) + i) [])) :=
+  ⟨fun c sk hskl hsk pts hpts hes cc cells h hdec =>
+      gglweCompressed_wellformed c hd tmp0 htl htw sk hskl hsk pts hpts expand seedXa es hes cc cells h hdec,
+   fun c sk hskl hsk pt hpt hes cc cells h hdec =>
+      ggswCompressed_wellformed c hd tmp0 htl htw sk hskl hsk pt hpt expand seedXa es hes cc cells h hdec⟩
+
+example : ((Core.gglweEncryptCompressedT [[7, 7], [9, 9]] 64 3 2 2 5 1 1 2 1 [[1, 0]] [[1, -1]] (fun s => s ++ [1, 2, 3, 4, 5, 6, 7, 8, 9, 10])
+    [1, 2, 3, 4, 5, 6, 7, 8] [[0, 1], [1, 0]]).bind (Core.decompressCells 3 2 1 (fun s => s ++ [1, 2, 3, 4, 5, 6, 7, 8, 9, 10]))).isSome := by decide
+
+open Ks in
+/-- **`glwe_switching_key_encrypt_sk`**: `s_in = sk_in` under `sk_out` -/
+theorem glwe_switching_key_encrypt_sk_wellformed {bits b n size kxe rankOut rankIn dnum dsize : Nat} {H E : Int}
+    (c : KeyCtx bits b n size kxe rankOut H E) (hd : 1 ≤ dsize) (tmp0 : Col) (htl : tmp0.length = size) (htw : WF n tmp0)
+    (skIn skOut : List Poly) (hin : ∀ s ∈ skIn, ScalarOk n s) (hout : ∀ s ∈ skOut, s.length = n ∧ norm1 s * 2 ^ (b - 1) ≤ H)
+    (xa : List Nat) (es : List Poly) (hes : ErrOk n E es (rankIn * dnum))
+    (cells : List (Nat × List Col)) (xa' : List Nat) (es' : List Poly)
+    (h : Core.glweSwitchingKeyEncryptSk tmp0 bits b n size kxe rankOut rankIn dnum dsize skIn skOut xa es = some (cells, xa', es')) :
+    es' = es.drop (rankIn * dnum) ∧ skIn.length = rankIn ∧
+    KeyWellFormed n b dsize size kxe dnum rankIn (Core.keyMat n dnum rankIn (rankOut + 1) size cells) skOut
+      (fun i => ι n (skIn.getD i [])) (fun i r => es.getD (i * dnum + r) []) :=
+  glweSwitchingKey_wellformed c hd tmp0 htl htw skIn skOut hin hout xa es hes cells xa' es' h
+
+example : (Core.glweSwitchingKeyEncryptSk [[0, 0], [0, 0]] 64 3 2 2 5 1 1 1 1 [[1, 0]] [[1, -1]] [1, 2, 3, 4] [[0, 1]]).map (·.1)
+    = some [(0, [[[-2, -1], [1, 0]], [[-3, -2], [-1, 0]]])] := by decide
+
+open Ks in
+/-- **`glwe_automorphism_key_encrypt_sk`**: `s_in = sk` under `σ_{p⁻¹}(sk)`, `p⁻¹ = galois_element_inv(p)` modulo `2n` -/
+theorem glwe_automorphism_key_encrypt_sk_wellformed {bits b n size kxe rank dnum dsize : Nat} {H E : Int}
+    (c : KeyCtx bits b n size kxe rank H E) (hd : 1 ≤ dsize) (tmp0 : Col) (htl : tmp0.length = size) (htw : WF n tmp0) (p : Int)
+    (sk : List Poly) (hsk : ∀ s ∈ sk, ScalarOk n s) (hskn : ∀ g, ∀ s ∈ sk, norm1 (AutoMul.σ g s) * 2 ^ (b - 1) ≤ H)
+    (xa : List Nat) (es : List Poly) (hes : ErrOk n E es (rank * dnum))
+    (cells : List (Nat × List Col)) (xa' : List Nat) (es' : List Poly)
+    (h : Core.glweAutomorphismKeyEncryptSk tmp0 bits b n size kxe rank dnum dsize p sk xa es = some (cells, xa', es')) :
+    ∃ gInv, galoisElementInv p (2 * (n : Int)) = Outcome.ok gInv ∧ es' = es.drop (rank * dnum) ∧ sk.length = rank ∧
+      KeyWellFormed n b dsize size kxe dnum rank (Core.keyMat n dnum rank (rank + 1) size cells) (sk.map (AutoMul.σ gInv))
+        (fun i => ι n (sk.getD i [])) (fun i r => es.getD (i * dnum + r) []) :=
+  glweAutomorphismKey_wellformed c hd tmp0 htl htw p sk hsk hskn xa es hes cells xa' es' h
+
+example : (Core.glweAutomorphismKeyEncryptSk [[0, 0], [0, 0]] 64 3 2 2 5 1 1 1 3 [[1, -1]] [1, 2, 3, 4] [[0, 1]]).map (·.1)
+    = some [(0, [[[2, -4], [1, 2]], [[-3, -2], [-1, 0]]])] := by decide +kernel
+
+open Ks in
+/-- **`glwe_tensor_key_encrypt_sk`**: `s_in` = the entries of the tensor secret; entry `(a, c)`, `a ≤ c`, sits at input column
+`a·rank + c − a(a+1)/2` and is `s_a ⋆ s_c` whenever no coefficient of the product reaches `2^16` (the tensor secret keeps ONE limb of radix
+`2^17`; beyond that the routine encrypts the product reduced modulo `2^17`) -/
+theorem glwe_tensor_key_encrypt_sk_wellformed {bits b n size kxe rank dnum dsize : Nat} {H E Hp : Int}
+    (c : KeyCtx bits b n size kxe rank H E) (hd : 1 ≤ dsize) (hr17 : HeadRoom bits 17 0 Hp)
+    (tmp0 : Col) (htl : tmp0.length = size) (htw : WF n tmp0)
+    (sk : List Poly) (hsk : ∀ s ∈ sk, s.length = n ∧ norm1 s * 2 ^ (b - 1) ≤ H)
+    (hprod : ∀ i j, ∀ x ∈ Hal.negMul (sk.getD j []) (sk.getD i []), |x| ≤ Hp)
+    (xa : List Nat) (es : List Poly) (hes : ErrOk n E es ((tensorPairs sk.length).length * dnum))
+    (cells : List (Nat × List Col)) (xa' : List Nat) (es' : List Poly)
+    (h : Core.glweTensorKeyEncryptSk tmp0 bits b n size kxe rank dnum dsize sk xa es = some (cells, xa', es')) :
+    ∃ pts, Core.tensorSecret bits n sk = some pts ∧ pts.length = (tensorPairs sk.length).length ∧ es' = es.drop (pts.length * dnum) ∧
+      KeyWellFormed n b dsize size kxe dnum pts.length (Core.keyMat n dnum pts.length (rank + 1) size cells) sk
+        (fun i => ι n (pts.getD i [])) (fun i r => es.getD (i * dnum + r) []) ∧
+      ∀ a c', a ≤ c' → c' < sk.length → (∀ x ∈ Hal.negMul (sk.getD c' []) (sk.getD a []), |x| < 2 ^ 16) →
+        ι n (pts.getD (a * sk.length + c' - a * (a + 1) / 2) []) = ι n (sk.getD a []) * ι n (sk.getD c' []) :=
+  glweTensorKey_wellformed c hd hr17 tmp0 htl htw sk hsk hprod xa es hes cells xa' es' h
+
+example : (Core.glweTensorKeyEncryptSk [[0, 0], [0, 0]] 64 3 2 2 5 1 1 1 [[1, -1]] [1, 2, 3, 4] [[0, 1]]).map (·.1)
+    = some [(0, [[[-3, -3], [1, 0]], [[-3, -2], [-1, 0]]])] ∧ tensorPairs 2 = [(0, 0), (0, 1), (1, 1)] := by decide
+
+open Ks in
+/-- **`gglwe_to_ggsw_key_encrypt_sk`**: sub-key `i` has `s_in_j = at(i, j)` (`= s_i ⋆ s_j` when exact, `tensorAt_spec`), errors
+`i·rank·dnum + (j·dnum + r)` of the running error source -/
+theorem gglwe_to_ggsw_key_encrypt_sk_wellformed {bits b n size kxe rank dnum dsize : Nat} {H E Hp : Int}
+    (c : KeyCtx bits b n size kxe rank H E) (hd : 1 ≤ dsize) (hr17 : HeadRoom bits 17 0 Hp)
+    (tmp0 : Col) (htl : tmp0.length = size) (htw : WF n tmp0)
+    (sk : List Poly) (hskr : sk.length = rank) (hsk : ∀ s ∈ sk, s.length = n ∧ norm1 s * 2 ^ (b - 1) ≤ H)
+    (hprod : ∀ i j, ∀ x ∈ Hal.negMul (sk.getD j []) (sk.getD i []), |x| ≤ Hp)
+    (xa : List Nat) (es : List Poly) (hes : ErrOk n E es (rank * (rank * dnum)))
+    (out : List (List (Nat × List Col))) (xa' : List Nat) (es' : List Poly)
+    (h : Core.gglweToGgswKeyEncryptSk tmp0 bits b n size kxe rank dnum dsize sk xa es = some (out, xa', es')) :
+    ∃ pts, Core.tensorSecret bits n sk = some pts ∧ out.length = rank ∧ es' = es.drop (rank * (rank * dnum)) ∧
+      (∀ i, i < rank → ∃ cells, out[i]? = some cells ∧
+        KeyWellFormed n b dsize size kxe dnum rank (Core.keyMat n dnum rank (rank + 1) size cells) sk
+          (fun j => ι n (Core.tensorAt rank pts i j)) (fun j r => es.getD (i * (rank * dnum) + (j * dnum + r)) [])) ∧
+      ∀ i j, i < rank → j < rank → (∀ x ∈ Hal.negMul (sk.getD (max i j) []) (sk.getD (min i j) []), |x| < 2 ^ 16) →
+        ι n (Core.tensorAt rank pts i j) = ι n (sk.getD i []) * ι n (sk.getD j []) := by
+  unfold Core.gglweToGgswKeyEncryptSk at h
+  cases ht : Core.tensorSecret bits n sk with
+  | none => simp [ht] at h
+  | some pts =>
+    simp only [ht] at h
+    obtain ⟨h1, h2, h3⟩ := g2gStdLoop_wellformed c hd hr17 tmp0 htl htw sk hskr hsk hprod pts ht (List.range rank)
+      (by intro i hi; simpa using hi) xa es (by simpa using hes) out xa' es' h
+    refine ⟨pts, rfl, by simpa using h1, by simpa using h2, ?_, ?_⟩
+    · intro i hi
+      exact h3 i i (by simp [hi])
+    · intro i j hi hj hsmall
+      have := (tensorAt_spec c.hbits hr17 c.hn sk (fun s hs => (hsk s hs).1) hprod pts ht i j (by omega) (by omega)).2 hsmall
+      rwa [hskr] at this
+
+example : (Core.gglweToGgswKeyEncryptSk [[0, 0], [0, 0]] 64 3 2 2 5 1 1 1 [[1, -1]] [1, 2, 3, 4] [[0, 1]]).map (fun r => r.1.map (fun c => c.map (·.1)))
+    = some [[0]] := by decide
+
+open Ks in
+/-- **the LWE-related keys**: `lwe_switching_key_encrypt_sk` (`s_in = embSk n sk_in` under `embSk n sk_out`, each secret zero-padded from
+ITS OWN dimension), `glwe_to_lwe_key_encrypt_sk` (`s_in = sk_glwe` under `embSk n sk_lwe`), `lwe_to_glwe_key_encrypt_sk`
+(`s_in = embSk n sk_lwe` under `sk_glwe`); `embSk n s = [σ_{−1}(s padded to n)]` is the embedding of `C03.lwe_keyswitch_decrypts` /
+`glwe_to_lwe_decrypts` -/
+theorem lwe_keys_encrypt_sk_wellformed {bits b n size kxe rankOut rankIn dnum : Nat} {H E : Int}
+    (tmp0 : Col) (htl : tmp0.length = size) (htw : WF n tmp0) (xa : List Nat) (es : List Poly)
+    (cells : List (Nat × List Col)) (xa' : List Nat) (es' : List Poly) :
+    (∀ (_c : KeyCtx bits b n size kxe 1 H E) (skIn skOut : Poly) (_ : ∀ x ∈ skIn, |x| ≤ 2 ^ 62) (_ : ∀ x ∈ skOut, |x| ≤ 2 ^ 62)
+      (_ : ∀ s ∈ KsDec.embSk n skOut, norm1 s * 2 ^ (b - 1) ≤ H) (_ : ErrOk n E es (1 * dnum)),
+      Core.lweSwitchingKeyEncryptSk tmp0 bits b n size kxe dnum skIn skOut xa es = some (cells, xa', es') →
+      skIn.length ≤ n ∧ skOut.length ≤ n ∧ es' = es.drop (1 * dnum) ∧
+      KeyWellFormed n b 1 size kxe dnum 1 (Core.keyMat n dnum 1 2 size cells) (KsDec.embSk n skOut)
+        (fun i => ι n ((KsDec.embSk n skIn).getD i [])) (fun i r => es.getD (i * dnum + r) [])) ∧
+    (∀ (_c : KeyCtx bits b n size kxe 1 H E) (skLwe : Poly) (_ : ∀ x ∈ skLwe, |x| ≤ 2 ^ 62)
+      (_ : ∀ s ∈ KsDec.embSk n skLwe, norm1 s * 2 ^ (b - 1) ≤ H) (skGlwe : List Poly) (_ : ∀ s ∈ skGlwe, ScalarOk n s)
+      (_ : ErrOk n E es (rankIn * dnum)),
+      Core.glweToLweKeyEncryptSk tmp0 bits b n size kxe rankIn dnum skLwe skGlwe xa es = some (cells, xa', es') →
+      skLwe.length ≤ n ∧ es' = es.drop (rankIn * dnum) ∧ skGlwe.length = rankIn ∧
+      KeyWellFormed n b 1 size kxe dnum rankIn (Core.keyMat n dnum rankIn 2 size cells) (KsDec.embSk n skLwe)
+        (fun i => ι n (skGlwe.getD i [])) (fun i r => es.getD (i * dnum + r) [])) ∧
+    (∀ (_c : KeyCtx bits b n size kxe rankOut H E) (skLwe : Poly) (_ : ∀ x ∈ skLwe, |x| ≤ 2 ^ 62)
+      (skGlwe : List Poly) (_ : ∀ s ∈ skGlwe, norm1 s * 2 ^ (b - 1) ≤ H) (_ : ErrOk n E es (1 * dnum)),
+      Core.lweToGlweKeyEncryptSk tmp0 bits b n size kxe rankOut dnum skLwe skGlwe xa es = some (cells, xa', es') →
+      skLwe.length ≤ n ∧ es' = es.drop (1 * dnum) ∧
+      KeyWellFormed n b 1 size kxe dnum 1 (Core.keyMat n dnum 1 (rankOut + 1) size cells) skGlwe
+        (fun i => ι n ((KsDec.embSk n skLwe).getD i [])) (fun i r => es.getD (i * dnum + r) [])) :=
+  ⟨fun c skIn skOut hin hout houtn hes h => lweSwitchingKey_wellformed c tmp0 htl htw skIn skOut hin hout houtn xa es hes cells xa' es' h,
+   fun c skLwe hlwe hlwen skGlwe hin hes h => glweToLweKey_wellformed c tmp0 htl htw skLwe hlwe hlwen skGlwe hin xa es hes cells xa' es' h,
+   fun c skLwe hlwe skGlwe hout hes h => lweToGlweKey_wellformed c tmp0 htl htw skLwe hlwe skGlwe hout xa es hes cells xa' es' h⟩
+
+/-- non-vacuity, and the input class of a seeded change the well-formedness theorem excludes: input secret of dimension 1, output secret of
+dimension 2 — the embedded input secret is padded from ITS dimension -/
+example : (Core.lweSwitchingKeyEncryptSk [[0, 0], [0, 0]] 64 3 2 2 5 1 [1] [1, 1] [1, 2, 3, 4] [[0, 1]]).map (·.1)
+      = some [(0, [[[-2, -1], [1, 0]], [[-3, -2], [-1, 0]]])] ∧
+    Core.embedLweSecret 2 [1] = some [1, 0] ∧ Core.embedLweSecret 2 [1, 1] = some [1, -1] := by decide
+
+open Ks in
+/-- **`blind_rotation_key_encrypt_sk`** (CGGI, standard and block-binary): element `i` is a well-formed GGSW of the constant polynomial
+`sk_lwe[i]` under `sk_glwe` — `hkey` of `C04.ep_decrypts` for the `i`-th CMUX of the blind rotation (C14/C15), with the errors
+`i·dnum·(rank+1) + (r·(rank+1) + j)` of the running error source -/
+theorem blind_rotation_key_encrypt_sk_wellformed {bits b n size kxe rank dnum : Nat} {H E : Int}
+    (c : KeyCtx bits b n size kxe rank H E) (tmp0 : Col) (htl : tmp0.length = size) (htw : WF n tmp0)
+    (sk : List Poly) (hsk : ∀ s ∈ sk, norm1 s * 2 ^ (b - 1) ≤ H)
+    (skLwe : List Int) (hlwe : ∀ x ∈ skLwe, |x| ≤ 2 ^ 62) (xa : List Nat) (es : List Poly)
+    (hes : ErrOk n E es (skLwe.length * (dnum * (rank + 1))))
+    (out : List (List (Nat × List Col))) (xa' : List Nat) (es' : List Poly)
+    (h : Core.blindRotationKeyEncryptSk tmp0 bits b n size kxe rank dnum skLwe sk xa es = some (out, xa', es')) :
+    out.length = skLwe.length ∧ es' = es.drop (skLwe.length * (dnum * (rank + 1))) ∧
+    ∀ (i : Nat) (si : Int), skLwe[i]? = some si → ∃ cells, out[i]? = some cells ∧
+      KeyWellFormed n b 1 size kxe dnum (rank + 1) (Core.keyMat n dnum (rank + 1) (rank + 1) size cells) sk
+        (fun j => (if j = 0 then 1 else ι n (sk.getD (j - 1) [])) * ι n (si :: List.replicate (n - 1) 0))
+        (fun j r => es.getD (i * (dnum * (rank + 1)) + (r * (rank + 1) + j)) []) :=
+  blindRotationKey_wellformed c tmp0 htl htw sk hsk skLwe hlwe xa es hes out xa' es' h
+
+example : (Core.blindRotationKeyEncryptSk [[0, 0], [0, 0]] 64 3 2 2 5 1 1 [1, 0] [[1, -1]] [1, 2, 3, 4, 5, 6, 7, 8, 9, 10, 11, 12, 13, 14, 15, 16]
+    [[0, 1], [1, 0], [0, 0], [1, 1]]).map (fun r => r.1.map (fun c => c.map (·.1))) = some [[0, 1], [0, 1]] := by decide
+
+/-! ### the statement in the consumers' own words -/
+
+open Ks in
+/-- **`KeyWellFormed` = the key hypotheses of `C03.glwe_keyswitch_decrypts` / `glwe_automorphism_decrypts` / `KsSide`** for
+`key = ⟨b, dsize, p, mat⟩`: `hc0`, `hS`, `hM` on the rows, and `hEL hKL hkey` with the explicit
+`EL i r = 2^(b·(size−1−errLimb))·err i r` -/
+theorem key_hypothesis_ks {n b dsize size kxe dnum colsIn : Nat} {mat : Hal.PMat} {sIn sOut : List Poly} {err : Nat → Nat → Poly}
+    (hdn : 1 ≤ dnum) (hci : 0 < colsIn)
+    (h : KeyWellFormed n b dsize size kxe dnum colsIn mat sOut (fun i => ι n (sIn.getD i [])) err)
+    (herr : ∀ i, i < colsIn → ∀ r, r < dnum → (err i r).length = n) (p : Int) :
+    let key : Ks.Key := { base2k := b, dsize := dsize, p := p, mat := mat }
+    0 < key.mat.colsOut ∧ key.mat.rows * key.dsize ≤ key.mat.size ∧
+    (∀ i, i < key.mat.colsIn → ∀ r, r < key.mat.rows → ∀ q, (key.mat.entry (r * key.mat.colsIn + i) q).length = n) ∧
+    ∃ EL KL : Nat → Nat → Poly, (∀ i r, (EL i r).length = n) ∧ (∀ i r, (KL i r).length = n) ∧
+      (∀ i, i < colsIn → ∀ r, r < dnum → EL i r = Hal.polyScale (2 ^ (b * (size - 1 - errLimb kxe b))) (err i r)) ∧
+      ∀ i, i < key.mat.colsIn → ∀ r, r < key.mat.rows →
+        Gadget.val (Ks.radix n key.base2k) key.mat.size (Ks.keyPhase n sOut key.mat i r) =
+          Ks.ι n (sIn.getD i []) * Ks.radix n key.base2k ^ (key.mat.size - (r + 1) * key.dsize) + Ks.ι n (EL i r)
+            + Ks.radix n key.base2k ^ key.mat.size * Ks.ι n (KL i r) :=
+  KeyWellFormed.ks hdn hci h herr p
+
+open Ks in
+/-- **`KeyWellFormed` = `hkey` of `C04.ep_decrypts` (`msg i = m2·σ_i`), `C05.relin_decrypts` / `glwe_mul_decrypts` (`msg i = 1·σ_i`),
+`C03.ggsw_cells_value` (`msg i = ι s_c · σ_i`)**, with `E i r := ι (2^(b(size−1−limb))·err i r) + (2^b)^size · ι (KL i r)` -/
+theorem key_hypothesis_ep {n b dsize size kxe dnum colsIn : Nat} {mat : Hal.PMat} {sOut : List Poly} {msg : Nat → Ks.R n} {err : Nat → Nat → Poly}
+    (h : KeyWellFormed n b dsize size kxe dnum colsIn mat sOut msg err) :
+    ∃ (KL : Nat → Nat → Poly) (E : Nat → Nat → Ks.R n), (∀ i r, (KL i r).length = n) ∧
+      (∀ i r, E i r = ι n (Hal.polyScale (2 ^ (b * (size - 1 - errLimb kxe b))) (err i r)) + ((2 : Ks.R n) ^ b) ^ size * ι n (KL i r)) ∧
+      ∀ i, i < colsIn → ∀ r, r < dnum →
+        Gadget.val ((2 : Ks.R n) ^ b) size (Ks.keyPhase n sOut mat i r) = msg i * ((2 : Ks.R n) ^ b) ^ (size - (r + 1) * dsize) + E i r :=
+  KeyWellFormed.ep h
+
+/-- the containers of the consumers built from generated cells read the generated matrix: `EpGGSW.toPMat`, `GGLWE.toPMat`,
+`(ToGGSWKey.at c).toPMat` are `Core.keyMat` of the cells -/
+theorem generated_containers (b n rank colsIn colsOut dsize dnum size : Nat) (cells : List (Nat × List Col))
+    (subs : List (List (Nat × List Col))) (c : Nat) (hc : subs[c]? = some cells) :
+    (ggswOf b n rank dsize dnum size cells).toPMat = Core.keyMat n dnum (rank + 1) (rank + 1) size cells ∧
+    (gglweOf b n colsIn colsOut dsize dnum size cells).toPMat = Core.keyMat n dnum colsIn colsOut size cells ∧
+    ((toGgswKeyOf b n rank dsize dnum size subs).at c).toPMat = Core.keyMat n dnum rank (rank + 1) size cells ∧
+    (ksKeyOf b dsize 0 n dnum colsIn colsOut size cells).mat = Core.keyMat n dnum colsIn colsOut size cells :=
+  ⟨rfl, rfl, toGgswKeyOf_at b n rank dsize dnum size subs c cells hc, rfl⟩
+
+example : (ggswOf 3 2 1 1 1 2 [(0, [[[1, 2], [3, 4]], [[5, 6], [7, 8]]]), (1, [[[0, 0], [0, 0]], [[1, 1], [1, 1]]])]).cells
+    = [[[[1, 2], [3, 4]], [[5, 6], [7, 8]]], [[[0, 0], [0, 0]], [[1, 1], [1, 1]]]] := by decide
+
+/-- **key switching with a generated key — the key side of `KsSide` is discharged**: for a key produced by any of the GGLWE-type routines
+above (`hwf`), the structure `KsDec.KsSide` that `C03.glwe_keyswitch_decrypts_coeff`, `lwe_keyswitch_decrypts`, `glwe_to_lwe_decrypts`,
+`lwe_to_glwe_decrypts` take holds as soon as its operand / head-room fields do; `EL` is the scaled sampler error -/
+theorem ks_side_of_generated_key {n b dsize size kxe dnum colsIn : Nat} (big128 : Bool) (bout sout rout : Nat) (a : Ks.Ct) (p : Int)
+    (colsOut : Nat) (cells : List (Nat × List Col)) (sIn skOut : List Poly) (err : Nat → Nat → Poly) (Hin Hp : Int)
+    (hdn : 1 ≤ dnum) (hci : 0 < colsIn) (hd : 1 ≤ dsize)
+    (hwf : KeyWellFormed n b dsize size kxe dnum colsIn (Core.keyMat n dnum colsIn colsOut size cells) skOut (fun i => Ks.ι n (sIn.getD i [])) err)
+    (herr : ∀ i, i < colsIn → ∀ r, r < dnum → (err i r).length = n) (hsl : colsIn ≤ sIn.length)
+    (hN : 0 < n) (hrank : a.rank = colsIn) (hrout : rout = colsOut - 1)
+    (hbi1 : 1 ≤ a.base2k) (hbi : a.base2k ≤ 62) (hbk1 : 1 ≤ b) (hbk : b ≤ 62) (hbo1 : 1 ≤ bout) (hbo : bout ≤ 62)
+    (hIn0 : 0 ≤ Hin) (hIn : Hin + 8 ≤ 2 ^ 62) (hHp0 : 0 ≤ Hp) (hAcc : Hp + (Hin + 2 ^ b) + 8 ≤ 2 ^ (KsDec.bitsOf big128 - 2))
+    (hprod : ∀ aConv, Ks.convIn a (ksKeyOf b dsize p n dnum colsIn colsOut size cells) = .ok aConv → ∀ i, i < rout + 1 →
+      ∀ l ∈ (KsDec.prodOf rout aConv (ksKeyOf b dsize p n dnum colsIn colsOut size cells)).act i, ∀ x ∈ l, |x| ≤ Hp)
+    (hcov1 : KsDec.convSize a (ksKeyOf b dsize p n dnum colsIn colsOut size cells) ≤ size)
+    (hcov2 : KsDec.convSize a (ksKeyOf b dsize p n dnum colsIn colsOut size cells) ≤ dnum * dsize) :
+    ∃ EL KL : Nat → Nat → Poly,
+      (∀ i, i < colsIn → ∀ r, r < dnum → EL i r = Hal.polyScale (2 ^ (b * (size - 1 - errLimb kxe b))) (err i r)) ∧
+      KsDec.KsSide big128 n bout sout rout a (ksKeyOf b dsize p n dnum colsIn colsOut size cells) sIn skOut EL KL Hin Hp :=
+  ksSide_of_generated big128 n bout sout rout a p colsOut cells sIn skOut err Hin Hp hdn hci hd hwf herr hsl hN hrank hrout
+    hbi1 hbi hbk1 hbk hbo1 hbo hIn0 hIn hHp0 hAcc hprod hcov1 hcov2
 
 end C01
